@@ -36,10 +36,10 @@ pub fn run_command_line(sh: &mut Shell, line: &str, tty: bool,
             continue;
         }
         if sep == "&&" && status != 0 {
-            break;
+            continue;
         }
         if sep == "||" && status == 0 {
-            break;
+            continue;
         }
         let cmd = token.clone();
         let cr = run_proc(sh, &cmd, tty, capture);
